@@ -21,7 +21,7 @@ from . import z as Z
 from .engine import Engine, HERE, VENV_PY
 from .source import REPO
 
-QUICK_TIMEOUT_MS = 20000
+QUICK_TIMEOUT_MS = 10000
 THOROUGH_TIMEOUT_MS = 120000
 
 
@@ -78,7 +78,7 @@ def discharge(item, timeout_ms, second_opinion=False):
     r, m, dt = Z.check(asserts, timeout_ms, want_model=True)
     item.seconds = dt
     item.by = 'z3-%s' % z3.get_version_string()
-    if r == 'unknown':
+    if r == 'unknown' and (second_opinion or item.backend == 'strings'):
         # second back end on the dump: cvc5 for the string fragment, old z3 otherwise
         try:
             smt2 = Z.to_smt2(asserts)
@@ -136,6 +136,7 @@ class PropertyCheck(object):
         self.errors = []
         self.t0 = time.time()
         self.E = None
+        self.props_mod = None
 
     # -- building ----------------------------------------------------------------
     def engine(self, root=None):
@@ -202,6 +203,24 @@ class PropertyCheck(object):
                     g.by += ' (ground instance, sequence length %d)' % g.extra['ground']
                     self.items.append(g)
 
+    def native_search(self, unknown_items, script, payload, replay_script):
+        """Bounded native refutation search for clauses the solver left undecided;
+        a found case is a natively reproduced violation attached to the first such clause."""
+        root = self.E.repo.root if self.E is not None else None
+        try:
+            out = native(script, payload, repo_root=root, timeout=900)
+        except Exception as e:
+            self.notes.append('refutation search %s crashed: %r' % (script, e))
+            return None
+        self.notes.append('refutation search %s: tried %s cases, found %s' % (script, out.get('tried'), bool(out.get('found'))))
+        if out.get('found'):
+            it = unknown_items[0]
+            it.result = 'refuted'
+            it.by = (it.by or '') + ' unknown -> native refutation search'
+            it.extra['native_case'] = {'script': replay_script, 'case': out['found']['case']}
+            it.extra['reason_unknown_before_search'] = it.extra.get('reason_unknown')
+        return out
+
     def add_item(self, item):
         self.items.append(item)
 
@@ -213,6 +232,9 @@ class PropertyCheck(object):
                 discharge(it, tmo, second_opinion=(self.tier == 'thorough'))
         if self.E is not None and any(it.result == 'unknown' for it in self.items):
             self.refute_ground(self.E, (0, 1, 2) if self.tier == 'quick' else (0, 1, 2, 3))
+        unk = [it for it in self.items if it.result == 'unknown']
+        if unk and self.props_mod is not None and hasattr(self.props_mod, 'refute'):
+            self.props_mod.refute(self, unk)
 
     def clauses(self):
         agg = {}
@@ -317,12 +339,15 @@ def finish(pc, props_mod):
                    'extra': dict((k, v) for k, v in it.extra.items() if k != 'trail' and isinstance(v, (str, int, float, list, dict, type(None))))}
             reproduced = False
             conc = it.concretise or getattr(props_mod, 'concretise', None)
+            if it.extra.get('native_case'):
+                nc = it.extra['native_case']
+                conc = lambda pc_, it_: nc
             if conc is not None:
                 try:
                     case = conc(pc, it)
                     if case is not None:
                         rep['concretised_input'] = case
-                        out = native(case['script'], case['case'])
+                        out = native(case['script'], case['case'], repo_root=(pc.E.repo.root if pc.E else None))
                         rep['native_observation'] = out
                         reproduced = bool(out.get('fails'))
                 except Exception as e:
@@ -437,6 +462,7 @@ def run_canaries(pc, props_mod, limit=None):
             with open(os.path.join(tmp, can['file']), 'w', encoding='utf8') as f:
                 f.write(text.replace(can['old'], can['new'], 1))
             sub = PropertyCheck(pc.pid, pc.tier, pc.seed)
+            sub.props_mod = props_mod
             try:
                 E = sub.engine(tmp)
                 props_mod.build(sub, E, canary=can)
@@ -484,6 +510,7 @@ def main(argv):
         print('no check for property %s: %s' % (a.pid, e))
         return 3
     pc = PropertyCheck(a.pid, a.tier, seed)
+    pc.props_mod = props_mod
     try:
         E = pc.engine()
         pc.E = E
